@@ -8,8 +8,8 @@ namespace SoyVerif.Model.Lex
 open SoyVerif SoyVerif.Model
 
 /-- `lexNegative`, called by lexInsideTag (`l0`) right after reading '-' -/
-theorem lexNegative_sat {n : Int} {l0 l : Lexer} (hn : l.len = n ∧ (l.mp : Int) ≤ n ∧ 0 ≤ l.tagStart ∧ l.tagStart ≤ n ∧ l.bad = 0) (h0 : 0 ≤ l.start)
-    (h1 : l.start ≤ l0.pos) (h2 : l.pos ≤ n) (hadv : l0.pos < l.pos) (hn0 : l0.pos < n) :
+theorem lexNegative_sat {n : Int} {l0 l : Lexer} (hn : l.len = n ∧ (l.mp : Int) ≤ n ∧ 0 ≤ l.tagStart ∧ l.tagStart ≤ n ∧ l.bad = 0 ∧ l.tagBad = 0) (h0 : 0 ≤ l.start)
+    (h1 : l.start ≤ l0.pos) (h2 : l.pos ≤ n) (hadv : l0.pos < l.pos) (hn0 : l0.pos < n) (hi0 : l.input = l0.input) :
     Sat (lexNegative l) (Post n .insideTag l0) := by
   unfold lexNegative
   split
@@ -51,8 +51,8 @@ theorem isLetterOrUnderscore_nonneg {r : Int} (h : isLetterOrUnderscore r = true
   simp only [isLetterOrUnderscore, Bool.or_eq_true, Bool.and_eq_true, decide_eq_true_eq, beq_iff_eq] at h
   omega
 
-theorem lexSymbol_sat {n : Int} {l0 l : Lexer} (hn : l.len = n ∧ (l.mp : Int) ≤ n ∧ 0 ≤ l.tagStart ∧ l.tagStart ≤ n ∧ l.bad = 0) (h0 : 0 ≤ l.start)
-    (h1 : l.start ≤ l0.pos) (h2 : l.pos ≤ n) (hadv : l0.pos < l.pos) :
+theorem lexSymbol_sat {n : Int} {l0 l : Lexer} (hn : l.len = n ∧ (l.mp : Int) ≤ n ∧ 0 ≤ l.tagStart ∧ l.tagStart ≤ n ∧ l.bad = 0 ∧ l.tagBad = 0) (h0 : 0 ≤ l.start)
+    (h1 : l.start ≤ l0.pos) (h2 : l.pos ≤ n) (hadv : l0.pos < l.pos) (hi0 : l.input = l0.input) :
     Sat (lexSymbol l) (Post n .insideTag l0) := by
   unfold lexSymbol
   apply Sat.bind
@@ -63,82 +63,92 @@ theorem lexSymbol_sat {n : Int} {l0 l : Lexer} (hn : l.len = n ∧ (l.mp : Int) 
   apply sliceOf_sat (by lx) (by lx) (by lx)
   intro sym _
   split
-  · first | exact errorf_sat (by lx) | exact errorfAt_sat (by lx)
-  · exact emitInside_sat (by lx) (by lx) (by lx) (by lx) (by lx) (by eok)
+  · first | exact errorf_sat (by lx) (by inq) | exact errorfAt_sat (by lx) (by inq) (by first | exact tag_err (by lx) (by lx) (Or.inl rfl) | exact tag_err (by lx) (by lx) (Or.inr rfl))
+  · exact emitInside_sat (by lx) (by lx) (by lx) (by lx) (by lx) (by eok) (by inq)
 
 /-- facts about the lexer handed to the later cases of lexInsideTag: `r` was read from `l0`;
     unless a case condition peeked (`r` = '/' or '='), `backup` returns to `l0.pos` -/
-theorem lexInsideTagRest_sat {n : Int} {l0 l : Lexer} {r : Int} (hn : l.len = n ∧ (l.mp : Int) ≤ n ∧ 0 ≤ l.tagStart ∧ l.tagStart ≤ n ∧ l.bad = 0) (h0 : 0 ≤ l.start)
-    (h1 : l.start ≤ l0.pos) (h2 : l.pos ≤ n)
-    (hr : (r = -1 ∧ l.pos = l0.pos) ∨ (0 ≤ r ∧ l0.pos < l.pos))
-    (hb : r = 47 ∨ r = 61 ∨ l.pos - l.width = l0.pos) :
+theorem lexInsideTagRest_sat {n : Int} {l0 l : Lexer} {r : Int} (hn : l.len = n ∧ (l.mp : Int) ≤ n ∧ 0 ≤ l.tagStart ∧ l.tagStart ≤ n ∧ l.bad = 0 ∧ l.tagBad = 0) (h0 : 0 ≤ l.start)
+    (h1 : l.start = l0.pos) (h2 : l.pos ≤ n)
+    (hr : (r = -1 ∧ l.pos = l0.pos) ∨ (0 ≤ r ∧ l0.pos < l.pos ∧ (128 ≤ r ∨ r = 47 ∨ r = 61 ∨ l.pos = l0.pos + 1)))
+    (hb : r = 47 ∨ r = 61 ∨ l.pos - l.width = l0.pos)
+    (hc : 0 ≤ r → r < 128 → (byteAt l.input l0.pos.toNat : Int) = r) (hi0 : l.input = l0.input) :
     Sat (lexInsideTagRest r l) (Post n .insideTag l0) := by
   unfold lexInsideTagRest
   split
-  · fin
+  · -- the opening quote has just been read: `lexString r` starts one byte after `l.start`
+    rename_i hq
+    apply Sat.ret
+    apply Post.of (by lx) (by lx) (by lx) (by lx) (by lx) (by intro _ _; lx) (by intro _ _; lx) ?_ (by inq)
+    simp only [Extra]
+    refine ⟨by lx, ?_, hq⟩
+    rw [h1]
+    exact hc (by omega) (by omega)
   split
-  · exact emitInside_sat (by lx) (by lx) (by lx) (by lx) (by lx) (by eok)
+  · exact emitInside_sat (by lx) (by lx) (by lx) (by lx) (by lx) (by eok) (by inq)
   split
-  · first | exact errorf_sat (by lx) | exact errorfAt_sat (by lx)
+  · first | exact errorf_sat (by lx) (by inq) | exact errorfAt_sat (by lx) (by inq) (by first | exact tag_err (by lx) (by lx) (Or.inl rfl) | exact tag_err (by lx) (by lx) (Or.inr rfl))
   split
-  · exact emitInside_sat (by lx) (by lx) (by lx) (by lx) (by lx) (by eok)
+  · exact emitInside_sat (by lx) (by lx) (by lx) (by lx) (by lx) (by eok) (by inq)
   split
   · rename_i hl
     have := isLetterOrUnderscore_nonneg hl
     fin
   split
-  · exact emitInside_sat (by lx) (by lx) (by lx) (by lx) (by lx) (by eok)
+  · exact emitInside_sat (by lx) (by lx) (by lx) (by lx) (by lx) (by eok) (by inq)
   split
   · fin
-  · first | exact errorf_sat (by lx) | exact errorfAt_sat (by lx)
+  · first | exact errorf_sat (by lx) (by inq) | exact errorfAt_sat (by lx) (by inq) (by first | exact tag_err (by lx) (by lx) (Or.inl rfl) | exact tag_err (by lx) (by lx) (Or.inr rfl))
 
 set_option maxHeartbeats 1000000 in
-theorem lexInsideTagMid_sat {n : Int} {l0 l : Lexer} {r : Int} (hn : l.len = n ∧ (l.mp : Int) ≤ n ∧ 0 ≤ l.tagStart ∧ l.tagStart ≤ n ∧ l.bad = 0) (h0 : 0 ≤ l.start)
-    (h1 : l.start ≤ l0.pos) (h2 : l.pos ≤ n)
-    (hr : (r = -1 ∧ l.pos = l0.pos) ∨ (0 ≤ r ∧ l0.pos < l.pos ∧ (128 ≤ r ∨ l.pos = l0.pos + 1)))
-    (hb : r = 47 ∨ l.pos - l.width = l0.pos) :
+theorem lexInsideTagMid_sat {n : Int} {l0 l : Lexer} {r : Int} (hn : l.len = n ∧ (l.mp : Int) ≤ n ∧ 0 ≤ l.tagStart ∧ l.tagStart ≤ n ∧ l.bad = 0 ∧ l.tagBad = 0) (h0 : 0 ≤ l.start)
+    (h1 : l.start = l0.pos) (h2 : l.pos ≤ n)
+    (hr : (r = -1 ∧ l.pos = l0.pos) ∨ (0 ≤ r ∧ l0.pos < l.pos ∧ (128 ≤ r ∨ r = 47 ∨ l.pos = l0.pos + 1)))
+    (hb : r = 47 ∨ l.pos - l.width = l0.pos)
+    (hc : 0 ≤ r → r < 128 → (byteAt l.input l0.pos.toNat : Int) = r) (hi0 : l.input = l0.input) :
     Sat (lexInsideTagMid r l) (Post n .insideTag l0) := by
   unfold lexInsideTagMid
   split
   · fin
   split
-  · exact emitInside_sat (by lx) (by lx) (by lx) (by lx) (by lx) (by eok)
+  · exact emitInside_sat (by lx) (by lx) (by lx) (by lx) (by lx) (by eok) (by inq)
   split
-  · exact emitInside_sat (by lx) (by lx) (by lx) (by lx) (by lx) (by eok)
+  · exact emitInside_sat (by lx) (by lx) (by lx) (by lx) (by lx) (by eok) (by inq)
   split
   · nx r2 l2 hl2 hs2 hf2
     split
     · fin
     split
-    · exact emitInside_sat (by lx) (by lx) (by lx) (by lx) (by lx) (by eok)
+    · exact emitInside_sat (by lx) (by lx) (by lx) (by lx) (by lx) (by eok) (by inq)
     split
-    · exact emitInside_sat (by lx) (by lx) (by lx) (by lx) (by lx) (by eok)
-    · exact emitInside_sat (by lx) (by lx) (by lx) (by lx) (by lx) (by eok)
+    · exact emitInside_sat (by lx) (by lx) (by lx) (by lx) (by lx) (by eok) (by inq)
+    · exact emitInside_sat (by lx) (by lx) (by lx) (by lx) (by lx) (by eok) (by inq)
   split
-  · exact lexNegative_sat (by lx) (by lx) (by lx) (by lx) (by lx) (by lx)
-  split
-  · fin
+  · exact lexNegative_sat (by lx) (by lx) (by lx) (by lx) (by lx) (by lx) (by inq)
   split
   · fin
   split
-  · exact emitInside_sat (by lx) (by lx) (by lx) (by lx) (by lx) (by eok)
+  · fin
   split
-  · exact lexSymbol_sat (by lx) (by lx) (by lx) (by lx) (by lx)
+  · exact emitInside_sat (by lx) (by lx) (by lx) (by lx) (by lx) (by eok) (by inq)
+  split
+  · exact lexSymbol_sat (by lx) (by lx) (by lx) (by lx) (by lx) (by inq)
   split
   · apply Sat.bind
     apply peek_sat (by lx)
     intro p l2 hl2 hs2 hp2 hf2
     dsimp only
     split
-    · exact lexSymbol_sat (by lx) (by lx) (by lx) (by lx) (by lx)
-    · exact lexInsideTagRest_sat (by lx) (by lx) (by lx) (by lx) (by lx) (by lx)
-  · exact lexInsideTagRest_sat (by lx) (by lx) (by lx) (by lx) (by lx) (by lx)
+    · exact lexSymbol_sat (by lx) (by lx) (by lx) (by lx) (by lx) (by inq)
+    · exact lexInsideTagRest_sat (by lx) (by lx) (by lx) (by lx) (by lx) (by lx) (by rw [hl2.2.2.2.2.2]; exact hc) (by inq)
+  · exact lexInsideTagRest_sat (by lx) (by lx) (by lx) (by lx) (by lx) (by lx) hc (by inq)
 
-theorem lexInsideTag_ok {n : Int} {l : Lexer} (hg : Good n l) :
+theorem lexInsideTag_ok {n : Int} {l : Lexer} (hg : Good n l) (hx : Extra .insideTag l) :
     Sat (lexInsideTag l) (Post n .insideTag l) := by
   obtain ⟨hn, hs0, hsp, hpn⟩ := hg
+  simp only [Extra] at hx
   unfold lexInsideTag
-  nx r l1 hl1 hs1 hf1
+  apply Sat.bind; apply next_sat_c (by lx); intro r l1 hl1 hs1 hf1 hc1; unfold NextFacts at hf1; dsimp only
   split
   · rename_i hsp
     have := isSpaceEOL_nonneg hsp
@@ -150,7 +160,7 @@ theorem lexInsideTag_ok {n : Int} {l : Lexer} (hg : Good n l) :
     dsimp only
     split
     · fin
-    · exact lexInsideTagMid_sat (by lx) (by lx) (by lx) (by lx) (by lx) (by lx)
-  · exact lexInsideTagMid_sat (by lx) (by lx) (by lx) (by lx) (by lx) (by lx)
+    · exact lexInsideTagMid_sat (by lx) (by lx) (by lx) (by lx) (by lx) (by lx) (by rw [hl2.2.2.2.2.2, hl1.2.2.2.2.2]; exact hc1) (by inq)
+  · exact lexInsideTagMid_sat (by lx) (by lx) (by lx) (by lx) (by lx) (by lx) (by rw [hl1.2.2.2.2.2]; exact hc1) (by inq)
 
 end SoyVerif.Model.Lex
